@@ -40,13 +40,17 @@ def conformance(chk: Check, docs: list[dict], label: str, use_all: bool = False)
     if not traces:
         return {"docs": 0}
     dd = chk.scratch.sub("spconf")
-    tf = dd / "t.ndjson"
-    with tf.open("w") as f:
-        for t in traces:
-            f.write(json.dumps(t) + "\n")
-    r = run_tlc(chk.scratch, "Trace_SchemaParse", "SPECIFICATION Spec\nCHECK_DEADLOCK FALSE\n", workers=core.NCPU, env={"TRACE_FILE": str(tf)}, timeout=900)
-    chk.add_tlc(f"Trace_SchemaParse[{label}]", r)
-    vs = r.printed.get("VERDICT", [])
+    vs = []
+    CH = 1500   # documents per TLC run: the whole thorough family in one run passed the time limit
+    for k in range(0, len(traces), CH):
+        tf = dd / f"t{k}.ndjson"
+        with tf.open("w") as f:
+            for t in traces[k : k + CH]:
+                f.write(json.dumps(t) + "\n")
+        r = run_tlc(chk.scratch, "Trace_SchemaParse", "SPECIFICATION Spec\nCHECK_DEADLOCK FALSE\n", workers=core.NCPU, env={"TRACE_FILE": str(tf)}, timeout=1800)
+        chk.add_tlc(f"Trace_SchemaParse[{label}/{k // CH}]", r)
+        vs += r.printed.get("VERDICT", [])
+        tf.unlink()
     chk.require(len(vs) == len(traces), "Trace_SchemaParse verdict count mismatch")
     by_id = {t["id"]: t for t in traces}
     ev_ok = sum(1 for v in vs if v["evdiff"] == 0)
